@@ -57,25 +57,33 @@ Proof.
     split; apply Rle_bool_true; assumption.
 Qed.
 
+Lemma clamp_unit_eq (x : f32) :
+  clamp_unit x = if lt32 x m1_32 then (if lt32 p1_32 m1_32 then p1_32 else m1_32)
+                 else (if lt32 p1_32 x then p1_32 else x).
+Proof.
+  unfold clamp_unit, clamp32, fclamp, fgt. fold (lt32 x m1_32). destruct (lt32 x m1_32); reflexivity.
+Qed.
+Lemma unit_m1 : unit32 m1_32 = true. Proof. vm_compute. reflexivity. Qed.
+Lemma unit_p1 : unit32 p1_32 = true. Proof. vm_compute. reflexivity. Qed.
+Lemma lt_p1_m1 : lt32 p1_32 m1_32 = false. Proof. vm_compute. reflexivity. Qed.
+Lemma nan_m1 : isnan32 m1_32 = false. Proof. vm_compute. reflexivity. Qed.
+Lemma nan_p1 : isnan32 p1_32 = false. Proof. vm_compute. reflexivity. Qed.
+
 (** the clamp of any non-NaN value is a finite number in [-1, 1] *)
 Lemma clamp_unit_ok (x : f32) : isnan32 x = false -> unit32 (clamp_unit x) = true.
 Proof.
-  intro N. unfold clamp_unit, clamp32, fclamp. fold (lt32 x m1_32).
-  destruct (lt32 x m1_32) eqn:L.
-  - (* below: -1 *) vm_compute. reflexivity.
-  - assert (A : le32 m1_32 x = true) by (apply nlt_le; [exact N|reflexivity|exact L]).
-    unfold fgt. fold (lt32 p1_32 x).
-    destruct (lt32 p1_32 x) eqn:G.
-    + vm_compute. reflexivity.
-    + assert (B : le32 x p1_32 = true) by (apply nlt_le; [reflexivity|exact N|exact G]).
-      unfold unit32. rewrite A, B. reflexivity.
+  intro N. rewrite clamp_unit_eq, lt_p1_m1.
+  destruct (lt32 x m1_32) eqn:L; [exact unit_m1|].
+  pose proof (nlt_le x m1_32 N nan_m1 L) as A.
+  destruct (lt32 p1_32 x) eqn:G; [exact unit_p1|].
+  pose proof (nlt_le p1_32 x nan_p1 N G) as B.
+  unfold unit32. rewrite A, B. reflexivity.
 Qed.
 (** ... and it is the value itself when that already lies in [-1, 1] *)
 Lemma clamp_unit_id (x : f32) : unit32 x = true -> clamp_unit x = x.
 Proof.
   unfold unit32. rewrite andb_true_iff. intros [A B].
-  unfold clamp_unit, clamp32, fclamp, fgt. fold (lt32 x m1_32).
-  rewrite (le_nlt _ _ A). fold (lt32 p1_32 x). rewrite (le_nlt _ _ B). reflexivity.
+  rewrite clamp_unit_eq, (le_nlt _ _ A), (le_nlt _ _ B). reflexivity.
 Qed.
 (** a NaN is not stopped by the clamp (Rust's [clamp] returns NaN for NaN) *)
 Lemma clamp_unit_nan : clamp_unit B754_nan = B754_nan.
@@ -88,17 +96,19 @@ Proof.
   intros Ha Hb. apply unit_spec in Ha. apply unit_spec in Hb.
   destruct Ha as [Fa [A1 A2]]. destruct Hb as [Fb [B1 B2]].
   pose (rnd := round radix2 (SpecFloat.fexp 24 128) (round_mode mode_NE)).
+  pose proof (fexp_correct 24 128 Hprec32) as Vexp.
+  pose proof (valid_rnd_round_mode mode_NE) as Vrnd.
   assert (Hr : forall x y, x <= y -> rnd x <= rnd y).
-  { intros x y H. apply round_le; auto with typeclass_instances. }
+  { intros x y H. apply round_le; assumption. }
   assert (G2 : rnd 2 = 2).
-  { unfold rnd. rewrite <- B2R_two. apply round_generic; auto with typeclass_instances. apply generic_format_B2R. }
+  { unfold rnd. rewrite <- B2R_two. apply round_generic; [assumption|apply generic_format_B2R]. }
   assert (Gm2 : rnd (-2) = -2).
   { unfold rnd. replace (-2) with (- B2R32 two32) by (rewrite B2R_two; lra).
-    rewrite round_NE_opp. f_equal. apply round_generic; auto with typeclass_instances. apply generic_format_B2R. }
+    rewrite round_NE_opp. f_equal. apply round_generic; [assumption|apply generic_format_B2R]. }
   assert (G1 : rnd 1 = 1).
-  { unfold rnd. rewrite <- B2R_p1. apply round_generic; auto with typeclass_instances. apply generic_format_B2R. }
+  { unfold rnd. rewrite <- B2R_p1. apply round_generic; [assumption|apply generic_format_B2R]. }
   assert (Gm1 : rnd (-1) = -1).
-  { unfold rnd. rewrite <- B2R_m1. apply round_generic; auto with typeclass_instances. apply generic_format_B2R. }
+  { unfold rnd. rewrite <- B2R_m1. apply round_generic; [assumption|apply generic_format_B2R]. }
   (* the sum *)
   pose proof (Bplus_correct 24 128 Hprec32 Hmax32 mode_NE a b Fa Fb) as P.
   fold rnd in P.
@@ -107,18 +117,20 @@ Proof.
   rewrite Rlt_bool_true in P.
   2:{ apply Rle_lt_trans with 2; [apply Rabs_le; lra|]. change (bpow radix2 128) with (IZR (2 ^ 128)). apply IZR_lt. reflexivity. }
   destruct P as [Ps [Pf _]].
-  fold (add32 a b) in Ps, Pf.
+  change (Bplus mode_NE a b) with (add32 a b) in Ps, Pf.
   (* the division by two *)
   assert (NZ : B2R32 two32 <> 0) by (rewrite B2R_two; lra).
   pose proof (Bdiv_correct 24 128 Hprec32 Hmax32 mode_NE (add32 a b) two32 NZ) as D.
-  fold rnd in D. rewrite B2R_two, Ps in D.
+  change (round radix2 (SpecFloat.fexp 24 128) (round_mode mode_NE)) with rnd in D. rewrite B2R_two, Ps in D.
   assert (S2 : -1 <= rnd (rnd (B2R a + B2R b) / 2) <= 1).
   { split; [rewrite <- Gm1|rewrite <- G1]; apply Hr; lra. }
   rewrite Rlt_bool_true in D.
   2:{ apply Rle_lt_trans with 1; [apply Rabs_le; lra|]. change (bpow radix2 128) with (IZR (2 ^ 128)). apply IZR_lt. reflexivity. }
-  destruct D as [Ds [Df _]]. fold (div32 (add32 a b) two32) in Ds, Df.
+  destruct D as [Ds [Df _]]. change (Bdiv mode_NE (add32 a b) two32) with (div32 (add32 a b) two32) in Ds, Df.
   apply unit_spec. split; [rewrite Df; exact Pf|]. rewrite Ds. exact S2.
 Qed.
+
+Lemma unit_zero : unit32 zero32 = true. Proof. vm_compute. reflexivity. Qed.
 
 (** ** the output stage *)
 Lemma out_stage_length n l r : length (out_stage n l r) = n.
@@ -135,7 +147,7 @@ Proof.
   - constructor.
   - constructor; [|constructor]. apply mean_unit; assumption.
   - constructor; [exact Hl|]. constructor; [exact Hr|].
-    apply Forall_forall. intros x Hx. apply repeat_spec in Hx. subst x. vm_compute. reflexivity.
+    apply Forall_forall. intros x Hx. apply repeat_spec in Hx. subst x. exact unit_zero.
 Qed.
 
 (** layout: one channel = the mean of the clamped left and right; two or more = clamped left,
@@ -172,14 +184,16 @@ Proof.
   destruct l as [|x l]; [constructor|]. constructor; [apply firstn_le_length|apply IH].
 Qed.
 
+Lemma concat_map_flat_map {A B} (f : A -> list B) (cs : list (list A)) :
+  concat (map (fun c => flat_map f c) cs) = flat_map f (concat cs).
+Proof.
+  induction cs as [|c cs IH]; [reflexivity|]. cbn [map concat]. rewrite flat_map_app, IH. reflexivity.
+Qed.
 Lemma render_is_per_frame (n b : nat) (bus : list (f32 * f32)) :
   (0 < b)%nat -> render n b bus = flat_map (fun '(l, r) => out_stage n l r) bus.
 Proof.
-  intro Hb. unfold render.
-  rewrite <- (chunks_concat b bus (length bus) Hb (le_n _)) at 2.
-  generalize (chunks (length bus) b bus). intro cs.
-  induction cs as [|c cs IH]; [reflexivity|].
-  cbn [map concat]. rewrite flat_map_app. f_equal. exact IH.
+  intro Hb. unfold render. rewrite concat_map_flat_map.
+  rewrite (chunks_concat b bus (length bus) Hb (le_n _)). reflexivity.
 Qed.
 
 Lemma render_length (n b : nat) (bus : list (f32 * f32)) :
